@@ -6,7 +6,7 @@ from ..rng import sub, digest
 from ..shrink import ops_candidates
 
 ID = "C11"
-RUNS = {"quick": 60000, "thorough": 1500000}
+RUNS = {"quick": 120000, "thorough": 1500000}
 BUDGET = {"quick": 40, "thorough": 700}
 CHUNK = 2000
 DET_EVERY = 500
